@@ -2,6 +2,7 @@ use vm_core::{
     crypto::hash::{Blake3_192, Blake3_256, Hasher, Rpo256},
     utils::{
         collections::*, ByteReader, ByteWriter, Deserializable, DeserializationError, Serializable,
+        SliceReader,
     },
 };
 use winter_air::proof::StarkProof;
@@ -69,7 +70,13 @@ impl ExecutionProof {
             return Err(DeserializationError::UnexpectedEOF);
         }
         let hash_fn = HashFunction::try_from(source[0])?;
-        let proof = StarkProof::from_bytes(&source[1..])?;
+        let mut reader = SliceReader::new(&source[1..]);
+        let proof = StarkProof::read_from(&mut reader)?;
+        // the source must contain exactly one proof: bytes left over after the proof are not a
+        // part of what was proven and would otherwise be silently accepted
+        if reader.has_more_bytes() {
+            return Err(DeserializationError::UnconsumedBytes);
+        }
         Ok(Self::new(proof, hash_fn))
     }
 
